@@ -174,7 +174,12 @@ func Discharge(o *Obligation, dir string, timeout time.Duration, thorough bool) 
 			retry = 60 * time.Second
 		}
 		time.Sleep(200 * time.Millisecond)
-		answers = append(answers, race(file, retry, true, nil)...)
+		answers = append(answers, raceLocal(file, retry, true, nil)...) // in-process exec: independent of the helper processes
+		if !decided(answers) && allErrors(answers) {
+			// every solver process failed outright (could not start, crashed): not an answer about the obligation
+			time.Sleep(3 * time.Second)
+			answers = append(answers, raceLocal(file, retry, true, nil)...)
+		}
 	}
 	v := Verdict{Answers: answers}
 	nUnsat, nSat := 0, 0
@@ -358,4 +363,13 @@ func counterModel(file, script string, timeout time.Duration) string {
 		}
 	}
 	return ""
+}
+
+func allErrors(as []SolverAnswer) bool {
+	for _, a := range as {
+		if a.Status != "error" {
+			return false
+		}
+	}
+	return len(as) > 0
 }
